@@ -40,6 +40,22 @@ class ChanV:
         return f"<{self.kind}.{self.side} {self.name}>"
 
 
+class SharedSeq(Seq):
+    """a Vec living behind a lock that several threads touch: only its length is tracked as shared state"""
+    __slots__ = ("name",)
+
+    def __init__(self, name):
+        super().__init__("vec", [], "?")
+        self.name = name
+
+
+class NotifyV:
+    __slots__ = ("name",)
+
+    def __init__(self, name):
+        self.name = name
+
+
 class World:
     """objects created while the data structure is set up (sequentially, before the threads start)"""
 
@@ -49,6 +65,7 @@ class World:
         self.chan_cap = {}
         self.slot_ptrs = []        # BoxV pointers to PipeSlot values, index = order of registration
         self.slot_ids = []
+        self.notifies = []
 
 
 class Recorder:
@@ -98,6 +115,20 @@ def make_extern(rec: Recorder, setup=False):
             a = _name_of(args[0])
             if not isinstance(a, AtomicV):
                 raise Unsupported(f"atomic op on {a!r}")
+            if setup:
+                # sequential set-up phase: apply concretely to the initial state
+                old = W.atomic_init[a.name]
+                if me == "fetch_add":
+                    W.atomic_init[a.name] = old + args[1]
+                    return old
+                if me == "fetch_sub":
+                    W.atomic_init[a.name] = old - args[1]
+                    return old
+                if me == "load":
+                    return old
+                if me == "store":
+                    W.atomic_init[a.name] = args[1]
+                    return UNIT
             if me in ("fetch_add", "fetch_sub"):
                 return log(it, me, a.name, args[1])
             if me == "load":
@@ -186,6 +217,8 @@ def make_extern(rec: Recorder, setup=False):
             if isinstance(fut, Agg) and fut.ty == "{future}":
                 op, chn, arg = fut.f
                 r = log(it, op, chn, arg)
+                if op == "notify_await":
+                    return Enum("std::task::Poll", 0, "Ready", [UNIT])
                 if op == "ready_recv_await":
                     c = it.ctx.switch(r, dom(OK, CLOSED))
                     if c == OK:
@@ -204,6 +237,29 @@ def make_extern(rec: Recorder, setup=False):
                         raise PathAbort("result domain")
                 return Enum("std::task::Poll", 0, "Ready", [res])
             return NotImplemented
+        # ---- a shared Vec (behind a lock): length as an atomic cell; element contents are not tracked
+        if plain in ("std::vec::Vec::is_empty", "std::vec::Vec::len") and isinstance(_name_of(args[0]), SharedSeq):
+            r = log(it, "load", _name_of(args[0]).name)
+            return simp(r == 0) if plain.endswith("is_empty") else r
+        if plain == "std::vec::Vec::push" and isinstance(_name_of(args[0]), SharedSeq):
+            log(it, "fetch_add", _name_of(args[0]).name, 1)
+            return UNIT
+        if plain in ("std::vec::Vec::iter", "<std::vec::Vec as std::ops::Deref>::deref") and isinstance(_name_of(args[0]), SharedSeq):
+            # scenario assumption: the element being added is not present yet
+            return SliceRef(Ref(Cell(Seq("vec", [], "?"), "empty"), ()), 0, 0)
+        # ---- tokio Notify: notified() registers (creation), awaiting it blocks until a later notify_waiters()
+        if plain == "tokio::sync::Notify::new":
+            nm = f"n{len(W.notifies)}"
+            W.notifies.append(nm)
+            return NotifyV(nm)
+        if plain == "tokio::sync::Notify::notified":
+            n = _name_of(args[0])
+            r = log(it, "notify_register", n.name)
+            return Agg("{future}", ["notify_await", n.name, r])
+        if plain == "tokio::sync::Notify::notify_waiters":
+            n = _name_of(args[0])
+            log(it, "notify_all", n.name)
+            return UNIT
         # ---- Arc / Weak / locks: sequential cells
         if plain == "std::sync::Arc::downgrade":
             return _name_of_ptr(args[0])
